@@ -28,6 +28,8 @@ HERE = os.path.dirname(os.path.dirname(os.path.abspath(__file__)))
 EVID_DIR = os.environ.get("VERIF_EVIDENCE_DIR") or os.path.join(HERE, "evidence")
 REPLAY_DIR = os.path.join(os.environ["VERIF_EVIDENCE_DIR"], "replays") if os.environ.get("VERIF_EVIDENCE_DIR") else os.path.join(HERE, "replays")
 MAX_DISTINCT_PER_SHARD = 400000
+# the thorough tier multiplies every random-workload budget by this factor (enumerations have their own depth bounds)
+THOROUGH_SCALE = float(os.environ.get("VERIF_THOROUGH_SCALE") or 3)
 MAX_VIOL_PER_SHARD = 12
 
 
@@ -120,7 +122,7 @@ class Ctx(object):
 
     def budget(self, quick, thorough):
         """Operation budget of this shard."""
-        total = quick if self.tier == "quick" else thorough
+        total = quick if self.tier == "quick" else int(thorough * THOROUGH_SCALE)
         return max(1, total // self.nshards + (1 if self.shard < total % self.nshards else 0))
 
     def mine(self, i):
